@@ -2,8 +2,8 @@
    positive / nat stay the extracted datatypes, no Extract Constant. *)
 From Coq Require Import ZArith NArith List.
 From Coq Require Import ExtrOcamlBasic.
-From VV Require Import Base.F64 Mep.Genome Sig.Bits64 Sig.Murmur Sig.SigDefs.
+From VV Require Import Base.F64 Mep.Genome Mep.OpsDefs Sig.Bits64 Sig.Murmur Sig.SigDefs Sig.CseDefs.
 Extraction "sig_model.ml" murmur128 hcombine hempty hash_mep hash_ga hash_de hash_team mep_pack
   signature team_signature mep_step mep_mutation iga_step iga_mutation ide_step team_step
-  team_mutation_loop cache_ok_b mk_sym mk_gene mk_locus empty_genome set_cell set_best clear
-  F64.of_bits F64.to_bits F64.zero.
+  team_mutation_loop cache_ok_b mk_sym mk_gene mk_locus empty_genome put_gene clear
+  F64.of_bits F64.to_bits F64.zero cse_bits.
